@@ -37,18 +37,26 @@ MkRow(start) == FoldLeft(LAMBDA acc, i: Append(acc, Step(acc[Len(acc)])), <<star
 Rows == FoldLeft(LAMBDA acc, i: Append(acc, MkRow(Step(acc[Len(acc)][RowLen]))),
                  <<MkRow(1)>>, [i \in 1..(RowCount-1) |-> i])
 PExp == [e \in 0..(Modulus-1) |-> Rows[(e \div RowLen) + 1][(e % RowLen) + 1]]
-PLog == AntiFunction(PExp)          \* polynomial representation -> exponent
+\* inverse of a bijection f from the interval lo..hi onto an interval of the same length starting at base, as a function
+\* on that interval: the pairs <<f[x], x>> sorted by their first component (AntiFunction normalises a 65 535-element
+\* domain quadratically; sorting is n log n)
+InverseOnto(f, lo, hi, base) ==
+  LET pairs == SetToSortSeq({<<f[x], x>> : x \in lo..hi}, LAMBDA a, b: a[1] < b[1])
+  IN [y \in base..(base + hi - lo) |-> pairs[y - base + 1][2]]
+PLog == InverseOnto(PExp, 0, Modulus - 1, 1)          \* polynomial representation (1..Modulus) -> exponent
 
 (***************************************************************************)
 (* Cantor-basis symbols.                                                   *)
 (***************************************************************************)
-ToPoly(i) == FoldLeft(LAMBDA acc, b: IF (i \div Pow2[b]) % 2 = 1 THEN acc ^^ Basis[b] ELSE acc, 0, BitIdx)
+ToPolyDef(i) == FoldLeft(LAMBDA acc, b: IF (i \div Pow2[b]) % 2 = 1 THEN acc ^^ Basis[b] ELSE acc, 0, BitIdx)
+\* the same map as a table built by doubling (T_{b} = T_{b-1} followed by T_{b-1} xor Basis[b]): 2^Bits steps instead of Bits * 2^Bits
+ToPolySeq == FoldLeft(LAMBDA acc, b: acc \o [t \in 1..Len(acc) |-> acc[t] ^^ Basis[b]], <<0>>, BitIdx)
+ToPoly(i) == ToPolySeq[i + 1]
 
 \* The public tables::Log / tables::Exp contract.
 Log   == [i \in Sym |-> IF i = 0 THEN Modulus ELSE PLog[ToPoly(i)]]
 LogNZ == [i \in 1..(Order-1) |-> Log[i]]
-ExpA  == AntiFunction(LogNZ)
-Exp0  == [e \in 0..(Modulus-1) |-> ExpA[e]]   \* exponent -> symbol, interval domain (O(1) lookups)
+Exp0  == InverseOnto(LogNZ, 1, Order - 1, 0)     \* exponent 0..Modulus-1 -> symbol, interval domain (O(1) lookups)
 Exp   == [e \in Sym |-> IF e = Modulus THEN Exp0[0] ELSE Exp0[e]]
 
 Canon(v)     == IF v = Modulus THEN 0 ELSE v
